@@ -1305,6 +1305,13 @@ namespace chaiscript {
         return false;
       }
 
+      /// Boxes the C++ exception being handled so that it lives as long as a script value refers to it
+      /// (a catch block may rethrow or store the value it was given)
+      template<typename Exception>
+      static Boxed_Value box_exception(const Exception &t_e) {
+        return Boxed_Value(std::shared_ptr<const Exception>(std::make_shared<std::exception_ptr>(std::current_exception()), &t_e));
+      }
+
       Boxed_Value eval_internal(const chaiscript::detail::Dispatch_State &t_ss) const override {
         Boxed_Value retval;
 
@@ -1316,19 +1323,19 @@ namespace chaiscript {
           try {
             retval = this->children[0]->eval(t_ss);
           } catch (const exception::eval_error &e) {
-            if (!handle_exception(t_ss, Boxed_Value(std::ref(e)), retval)) {
+            if (!handle_exception(t_ss, box_exception(e), retval)) {
               throw;
             }
           } catch (const std::runtime_error &e) {
-            if (!handle_exception(t_ss, Boxed_Value(std::ref(e)), retval)) {
+            if (!handle_exception(t_ss, box_exception(e), retval)) {
               throw;
             }
           } catch (const std::out_of_range &e) {
-            if (!handle_exception(t_ss, Boxed_Value(std::ref(e)), retval)) {
+            if (!handle_exception(t_ss, box_exception(e), retval)) {
               throw;
             }
           } catch (const std::exception &e) {
-            if (!handle_exception(t_ss, Boxed_Value(std::ref(e)), retval)) {
+            if (!handle_exception(t_ss, box_exception(e), retval)) {
               throw;
             }
           } catch (Boxed_Value &e) {
